@@ -132,6 +132,34 @@ def intersect (a b : ValidationParams) : ValidationParams :=
     maxExecStackSize := minU a.maxExecStackSize b.maxExecStackSize
     maxRecursiveDepth := minU a.maxRecursiveDepth b.maxRecursiveDepth }
 
+/-- Boolean implication -/
+def imp (x y : Bool) : Bool := !x || y
+
+/-- the meaning of "`a` is a tightening of `b`" (what `entails` is documented to decide; proved
+equal to it in C12.entails_iff_le): component-wise, every switch `a` allows `b` allows, every limit of `a` is at most
+the limit of `b` -/
+def le (a b : ValidationParams) : Bool :=
+  imp a.allowCompressedKeys b.allowCompressedKeys
+    && imp a.allowDuplicateKeys b.allowDuplicateKeys
+    && imp a.allowDupIf b.allowDupIf
+    && imp a.allowMalleability b.allowMalleability
+    && imp a.allowMixedTimeLocks b.allowMixedTimeLocks
+    && imp a.allowMulti b.allowMulti
+    && imp a.allowMultiA b.allowMultiA
+    && imp a.allowOrI b.allowOrI
+    && imp a.allowRawPkh b.allowRawPkh
+    && imp a.allowSiglessBranch b.allowSiglessBranch
+    && imp a.allowNonB b.allowNonB
+    && imp a.allowUncompressedKeys b.allowUncompressedKeys
+    && imp a.allowUnsatisfiable b.allowUnsatisfiable
+    && imp a.allowXOnlyKeys b.allowXOnlyKeys
+    && imp a.allowInconsistentMultipathKeys b.allowInconsistentMultipathKeys
+    && decide (a.maxOpcodeCount ≤ b.maxOpcodeCount)
+    && decide (a.maxScriptSize ≤ b.maxScriptSize)
+    && decide (a.maxWitnessItems ≤ b.maxWitnessItems)
+    && decide (a.maxExecStackSize ≤ b.maxExecStackSize)
+    && decide (a.maxRecursiveDepth ≤ b.maxRecursiveDepth)
+
 /-- `ValidationParams::entails`: `self.intersect(other).eq(self)` -/
 def entails (a b : ValidationParams) : Bool := (a.intersect b).eq a
 
@@ -167,7 +195,7 @@ def Ctx.CONSENSUS : Ctx → ValidationParams
   | .tap =>
     { ValidationParams.CONSENSUS with
       allowCompressedKeys := false, allowUncompressedKeys := false, allowMulti := false,
-      allowXOnlyKeys := true }
+      allowXOnlyKeys := true, maxExecStackSize := MAX_STACK_SIZE }
   | .bare =>
     { ValidationParams.CONSENSUS with
       allowCompressedKeys := true, allowDupIf := false, allowUncompressedKeys := true,
@@ -180,9 +208,7 @@ def Ctx.SANE : Ctx → ValidationParams
     { (Ctx.CONSENSUS .segwitv0).intersect ValidationParams.SANE with
       maxScriptSize := MAX_STANDARD_P2WSH_SCRIPT_SIZE,
       maxWitnessItems := MAX_STANDARD_P2WSH_STACK_ITEMS }
-  | .tap =>
-    { (Ctx.CONSENSUS .tap).intersect ValidationParams.SANE with
-      maxExecStackSize := MAX_STACK_SIZE }
+  | .tap => (Ctx.CONSENSUS .tap).intersect ValidationParams.SANE
   | .bare => (Ctx.CONSENSUS .bare).intersect ValidationParams.SANE
 
 /-! ## keys -/
@@ -499,5 +525,89 @@ def accepts (env : KeyEnv) (K : KeyInfo) (ctx : Ctx) (e : Entry) (ms : Ms) : Boo
 `Threshold<Pk, 20>` must exist, then `from_ast(Terminal::SortedMulti)` and `Self::new` -/
 def acceptsSortedMulti (env : KeyEnv) (K : KeyInfo) (ctx : Ctx) (k : Nat) (ks : List Key) : Bool :=
   validateKN MAX_PUBKEYS_PER_MULTISIG k ks.length && accepts env K ctx .wrapper (.sortedMulti k ks)
+
+/-! ## `decode_with_validation_params` -/
+
+/-- fragments the script decoder pushes with the unchecked constructors (`Miniscript::pk_k`,
+`::multi`, `::older`, …) instead of `from_ast` -/
+def isDecodeLeaf : Ms → Bool
+  | .tru | .fls | .pkK _ | .rawPkH _ | .after _ | .older _ | .hash _ _ | .multi _ _
+  | .multiA _ _ => true
+  | _ => false
+
+/-- what `decode::decode` + `check_global_validity(top)` + `type_check(top)` establish: every
+node built by `reduce*` went through `from_ast`; the leaves did not (their thresholds and
+locks went through `Threshold::new` / `*LockTime::from_consensus`) -/
+def decConstructed (env : KeyEnv) (K : KeyInfo) (ctx : Ctx) (ms : Ms) : Bool :=
+  (ms.preorder.all fun m => termNodeOk m && (isDecodeLeaf m || fromAstNode env K ctx m))
+    && checkGlobalValidity ctx K (extOf env ctx ms).pkCost ms && (typeOf ms).isSome
+
+/-- `Miniscript::decode_with_validation_params(script, p)` where `script` decodes to `ms` -/
+def decodeAccepts (env : KeyEnv) (K : KeyInfo) (ctx : Ctx) (p : ValidationParams) (ms : Ms) : Bool :=
+  decConstructed env K ctx ms && isOk (validate env K ctx p ms)
+
+/-! ## key-only descriptors -/
+
+inductive KeyDesc | pk | pkh | wpkh | shWpkh | tr
+  deriving DecidableEq, Repr
+
+/-- the context whose `check_pk` the constructor calls (`Pkh::new`: `BareCtx`, `Wpkh::new`:
+`Segwitv0`, `Tr::new`: `Tap`; `pk(K)` is the bare miniscript `c:pk_k(K)`) -/
+def KeyDesc.ctx : KeyDesc → Ctx
+  | .pk | .pkh => .bare
+  | .wpkh | .shWpkh => .segwitv0
+  | .tr => .tap
+
+/-- `Pkh::new`, `Wpkh::new`, `Sh::new_wpkh`, `Tr::new(k, None)`, `Descriptor::new_{pkh,wpkh,
+sh_wpkh,tr}` and the parsers of `pkh(K)`, `wpkh(K)`, `sh(wpkh(K))`, `pk(K)`, `tr(K)` -/
+def keyOnlyAccepts (K : KeyInfo) (d : KeyDesc) (k : Key) : Bool := checkPk d.ctx (K.kind k)
+
+/-- `Descriptor::new_pk` returns `Self`, not a `Result`: it builds `c:pk_k(K)` with `from_ast`
+and `Bare::new` and `expect`s both ("Context checks cannot fail for p2pk") — it PANICS exactly
+where the other constructors return an error -/
+inductive Outcome | ok | err | panic
+  deriving DecidableEq, Repr
+
+def keyOnlyOutcome (K : KeyInfo) (d : KeyDesc) (viaNewPk : Bool) (k : Key) : Outcome :=
+  if keyOnlyAccepts K d k then .ok else if viaNewPk then .panic else .err
+
+/-- `decode_with_validation_params(script, MAX)` for the script a constructed miniscript `ms`
+encodes to: the decoder cannot start on a `W` fragment (`a:`/`s:` at the top); `pk_h` comes back
+as a raw hash and `sortedmulti` as `multi`, both pushed unchecked, so only the TOP node's keys
+are looked at (by `check_global_validity(top)`) and every node's size by `from_ast` -/
+def decodeMaxAccepts (env : KeyEnv) (K : KeyInfo) (ctx : Ctx) (ms : Ms) : Bool :=
+  (match typeOf ms with | some ty => ty.corr.base != .W | none => false)
+    && (ms.preorder.all fun m => sizeChecked ctx (extOf env ctx m).pkCost
+          && decide ((extOf env ctx m).treeHeight ≤ MAX_RECURSION_DEPTH))
+    && nodeChecked ctx K
+        (match ms with
+         | .pkH _ => .rawPkH 0
+         | .sortedMulti k ks => .multi k ks
+         | .sortedMultiA k ks => .multiA k ks
+         | m => m)
+
+/-! ## taproot trees -/
+
+inductive TapT
+  | leaf (ms : Ms)
+  | node (l r : TapT)
+
+def TapT.height : TapT → Nat
+  | .leaf _ => 0
+  | .node l r => 1 + max l.height r.height
+
+def TapT.leaves : TapT → List Ms
+  | .leaf m => [m]
+  | .node l r => l.leaves ++ r.leaves
+
+def TapT.depths : TapT → Nat → List Nat
+  | .leaf _, d => [d]
+  | .node l r, d => l.depths (d + 1) ++ r.depths (d + 1)
+
+/-- `TapTree::combine` (bottom-up, error above depth 128) + `Tr::new`, `Tr::from_str`,
+`Descriptor::from_str("tr(K,{..})")`: the tree fits and every leaf is accepted as a single
+leaf would be through the same entry point -/
+def trTreeAccepts (env : KeyEnv) (K : KeyInfo) (e : Entry) (t : TapT) : Bool :=
+  decide (t.height ≤ 128) && t.leaves.all (accepts env K .tap e)
 
 end MsVerif
